@@ -444,7 +444,9 @@ func enumC20(env *EnumEnv, it *WorkItem) *EnumResult {
 	reported := map[string]bool{}
 	frontier := []node{{seq: nil, left: -1}}
 	idx := 0
-	for len(frontier) > 0 {
+	g := &budgetGuard{env: env, res: res}
+	for len(frontier) > 0 && !g.expired {
+		g.phase = fmt.Sprintf("call sequences of length %d", len(frontier[0].seq)+1)
 		var next []node
 		for _, nd := range frontier {
 			for _, c := range builderAlphabet {
@@ -471,7 +473,7 @@ func enumC20(env *EnumEnv, it *WorkItem) *EnumResult {
 					distinct[dk] = true
 					res.Distinct++
 				}
-				if mine {
+				if mine && !g.over() {
 					res.Evaluations++
 					if rule, sig, msg := checkBuilderSeq(seq); rule != "" {
 						k := rule + "|" + sig
